@@ -46,15 +46,15 @@ PROFILES = {
     "C04": ("mixed", "transport", "full", "classic", "wide", "multibuf"),
     "C18": ("mixed", "transport", "buffers", "classic"),
     "C01": ("mixed", "full", "buffers", "stoch", "wide"),
-    "C02": ("full", "stoch", "mixed", "full", "wide"),
+    "C02": ("full", "stoch", "mixed", "full", "wide", "outs"),
     "C03": ("mixed", "buffers", "race", "full", "race", "multibuf", "wide"),
-    "C05": ("mixed", "buffers", "full", "stoch", "race", "multibuf", "wide"),
+    "C05": ("mixed", "buffers", "full", "stoch", "race", "multibuf", "wide", "outs"),
     "C07": ("transport", "buffers", "full", "stoch", "race", "multibuf", "wide"),
     "C08": ("buffers", "race", "full", "race", "wide", "multibuf"),
     "C09": ("full", "stoch", "full", "mixed", "wide"),
-    "C10": ("full", "stoch", "full", "full", "wide"),
+    "C10": ("full", "stoch", "full", "full", "wide", "outs"),
     "C11": ("transport", "buffers", "full", "race", "wide", "multibuf"),
-    "C12": ("mixed", "full", "transport", "stoch", "wide"),
+    "C12": ("mixed", "full", "transport", "stoch", "wide", "outs"),
     "C20": ("mixed", "full", "buffers", "transport"),
 }
 
